@@ -367,8 +367,9 @@ class FSM(object):
 
         elif self.state == bgp_cons.ST_OPENCONFIRM:
             # State OpenConfirm, events 19, 20
-            # TODO:Perform collision detection
-            pass
+            # no collision detection (one outgoing connection only): a second OPEN is an FSM error
+            self.protocol.send_notification(bgp_cons.ERR_FSM, 0)
+            self._error_close()
 
         elif self.state == bgp_cons.ST_ESTABLISHED:
             # State Established, event 19 or 20
